@@ -11,6 +11,10 @@ CLAIMED = {
          T + "reference-model ledger oracle for payouts, boundary-aimed block times"),
  "C03": ("share sums recomputed from raw store records after every step (delegations vs validator totals, validators vs asset total, no negatives, reset on drain) and cross-checked against the module's own registered invariants",
          T + "raw-store recomputation of share invariants after every step"),
+ "C04": ("after every successful delegate/undelegate/redelegate/claim the exact rational value of every position of the asset is compared before/after: the actor moves by the requested amount, every other position by at most the fixed-point tolerance derived from the state; reported balances must not sum above the staked total; fresh positions are probed for round-trip profit",
+         T + "per-transition exact value comparison over all positions"),
+ "C05": ("after every step, on discarded branches: a funded user delegates 1 unit and a large amount to every validator and whitelisted asset, and every position with a positive reported balance claims and undelegates its full balance; errors and panics are violations unless they match an open finding by call site and precondition",
+         T + "non-destructive liveness probes on discarded branches in every reachable state"),
  "C06": ("every slash that reaches the hooks (double-sign evidence, downtime, direct) is compared against an exact-rational model of the share system: positions on the slashed validator (1-f)g, all others g, staked totals unchanged",
          T + "exact rational share model around every slash"),
  "C07": ("around every slash the module's pending unbonding entries must equal the exact ledger (floor(f x balance) off the slashed validator's entries only), exactly the reductions must reach the fee collector, and redelegation destinations must lose f x redelegated amount; same-block packings of several validators/denoms/destinations are generated on purpose",
